@@ -41,6 +41,13 @@ CHECKS = {
             'texts from plain CPython execution, FIFO) compared after every operation, echo/default calibrated',
             'Every bounded history is executed and raw output, line list, input queue and per-execution records are '
             'compared with the reference after each step.', '2/C15'),
+    'C05': ('explicit-state enumeration of execution histories (depth 2; 3 in thorough) over entry point x termination mode '
+            '(normal, exceptions, exits, KeyboardInterrupt, GeneratorExit, BaseException subclass, compile failure) x tracer '
+            'style x ambient trace function x threaded on one real Sandbox, plus exhaustive single-fault injection '
+            '(sys.monitoring PY_START) at every pedal function entry inside Sandbox._capture_exception; oracle: global-state '
+            'invariant after every operation and a probe execution',
+            'Every bounded history and every single fault point is executed on the implementation; the borrowed process '
+            'state must be identical after every call. Time-outs are covered by the C14 scheduler harness.', '2/C05'),
 }
 
 PENDING = ['C02', 'C03', 'C04', 'C05', 'C06', 'C07', 'C08', 'C09', 'C10', 'C11', 'C12', 'C13', 'C14', 'C15',
